@@ -117,6 +117,11 @@ pub struct BuildOut {
     pub stats: Option<[u64; 4]>,
 }
 
+fn read_stats(h: &std::sync::Arc<[std::sync::atomic::AtomicU64; 4]>) -> [u64; 4] {
+    use std::sync::atomic::Ordering::SeqCst;
+    [h[0].load(SeqCst), h[1].load(SeqCst), h[2].load(SeqCst), h[3].load(SeqCst)]
+}
+
 fn raw_builder(ty: u64, rows: usize, cols: usize) -> Builder<Vec<u8>> {
     Builder::verif_new_type_with_cache(Vec::new(), ty, rows, cols).unwrap()
 }
@@ -140,8 +145,9 @@ pub fn exec_build(sem: &str, fe: &str, ty: u64, rows: usize, cols: usize, ops: &
                 results.push(fmt_res(&r));
                 bw.push_str(&format!("{},", b.bytes_written()));
             }
-            let st = b.verif_cache_stats();
+            let h = b.verif_cache_stats_handle();
             let bytes = b.into_inner().ok();
+            let st = read_stats(&h);
             BuildOut { results, bytes, bw, stats: Some(st) }
         }
         ("calls", "map") => {
@@ -194,8 +200,9 @@ pub fn exec_build(sem: &str, fe: &str, ty: u64, rows: usize, cols: usize, ops: &
                 }
             }
             let bw = format!("{}", b.bytes_written());
-            let stats = Some(b.verif_cache_stats());
-            BuildOut { results: vec![fmt_res(&r)], bytes: b.into_inner().ok(), bw, stats }
+            let h = b.verif_cache_stats_handle();
+            let bytes = b.into_inner().ok();
+            BuildOut { results: vec![fmt_res(&r)], bytes, bw, stats: Some(read_stats(&h)) }
         }
         ("extend", "map_iter") => {
             assert!(all_insert);
